@@ -92,6 +92,20 @@ class Prov:
                         if not isinstance(t.slice, ast.Slice):
                             self._content.setdefault(t.value.id, []).append(("setkey", t.slice))
 
+    def _alias_group(self, name: str) -> Set[str]:
+        """local names connected to `name` by plain copies (`a = b`, the parameter bindings of helpers analysed in place): they denote the
+        same container object, so what is put into one is in the other"""
+        if not hasattr(self, "_alias_classes"):
+            cls: Dict[str, Set[str]] = {}
+            for nm, v, _st in C.simple_bindings(self.f.node):
+                if isinstance(v, ast.Name) and nm.split("__")[0] != "" and ("__i" in nm or "__g" in nm or "__c" in nm or "__i" in v.id or "__g" in v.id):
+                    a, b = cls.setdefault(nm, {nm}), cls.setdefault(v.id, {v.id})
+                    u = a | b
+                    for x in u:
+                        cls[x] = u
+            self._alias_classes = cls
+        return self._alias_classes.get(name, {name})
+
     def _is_dict(self, name: ast.Name) -> bool:
         try:
             t = self.repo.types(self.f).typeof(name)
@@ -365,14 +379,16 @@ class Prov:
                 if not found:
                     out.add((f"unknown:def@{type(st).__name__}",))
         ckey = ("content", name)
-        if name in self._content and ckey not in seen and not (self.f.is_method and name == self.f.self_name):
+        group = self._alias_group(name)
+        if any(n_ in self._content for n_ in group) and ckey not in seen and not (self.f.is_method and name == self.f.self_name):
             mine = self.rd.defs_reaching(at, name)
-            for meth, arg in self._content[name]:
+            entries = [(n_, meth, arg) for n_ in sorted(group) for meth, arg in self._content.get(n_, [])]
+            for cname, meth, arg in entries:
                 try:
                     an = self.node_of(arg)
                 except KeyError:
                     continue
-                if mine and not (self.rd.defs_reaching(an, name) & mine):
+                if cname == name and mine and not (self.rd.defs_reaching(an, name) & mine):
                     continue  # the store goes into another object that merely had the same variable name
                 if getattr(self, "_under", None) is not None and an not in self._under[1]:
                     continue
